@@ -64,6 +64,12 @@ func (s *Scenario) newContent(size int) []byte {
 		b[i] = byte('A' + (i*7+s.ctr*13)%26)
 	}
 	copy(b, tag)
+	if size < len(tag) {
+		// too short for the tag: still distinct from the previous contents of that size
+		for i := range b {
+			b[i] = byte('a' + (s.ctr*(i+1)+i)%26)
+		}
+	}
 	return b
 }
 
